@@ -5,6 +5,7 @@ Tie to /repo: trace refinement — real runs are re-executed by `Tree.step`, sta
 sprout-stage outputs are diffed (harness/refine.py); only disagreements that bear on this
 property count.  Direct monitor of the property on the same kind of runs (harness/monitors.py).
 """
+import numpy as np
 from .. import refine, runs
 
 MODULE = 'PyhmsVerif.Props.C18Awake'
@@ -51,7 +52,91 @@ def run(ctx):
         deep,
         # NaN is a legal fitness: a sleeping deme must not evaluate (nor change) there either
         runs.nan_monitor_batch(ctx, PID, ctx.size(60, 600), salt=67, name="traced-runs-monitor-C18(objective with NaN holes, hibernation, NBC generators)", force=_nan_hib),
+        interleaved_options(ctx, ctx.size(16, 200), 69),
     ]
+
+
+def _interleaved_worker(seed):
+    """two trees in one process, stepped side by side: A with hibernation on, B with it off (explicitly) or
+    with an options dict that does not mention it.  B must never show a hibernating deme; in A every active
+    non-leaf deme that existed when a round began must sleep afterwards iff the round took no seed from it."""
+    import pyhms.tree as T
+    from pyhms.config import TreeConfig
+
+    from ..common import RunTimeout, is_env_crash, run_limit
+
+    rng = np.random.default_rng([seed, 99])
+    eng = {0: ["sea", "de", "shade", "ga"], 1: ["sea", "de", "cma", "shade"], 2: ["sea", "de", "cma", "local"]}
+    specs = [runs.rand_spec(rng, nlev=int(rng.choice([2, 3, 3])), engines=eng, gsc={"kind": "MetaepochLimit", "limit": 8}, cutoff=None) for _ in range(2)]
+    how_b = int(rng.integers(0, 3))  # 0: hibernation False, 1: key omitted, 2: no random_seed either
+    found = []
+    try:
+        with run_limit():
+            trees, seeds_log = [], [[], []]
+            for k, spec in enumerate(specs):
+                o = runs.build(spec, None, plain="callable")
+                sm = o["sm"]
+                orig = sm.get_seeds
+
+                def get_seeds(tree, orig=orig, log=seeds_log[k]):
+                    out = orig(tree)
+                    log.append({d.id for d in out})
+                    return out
+
+                sm.get_seeds = get_seeds
+                if k == 0:
+                    opts = {"random_seed": spec["seed"], "hibernation": True}
+                else:
+                    opts = [{"random_seed": spec["seed"], "hibernation": False}, {"random_seed": spec["seed"]}, {}][how_b]
+                trees.append(T.DemeTree(TreeConfig(o["levels"], o["gsc"], sm, options=opts, config_class_to_deme_class=o["custom"])))
+            a, b = trees
+            for _ in range(8):
+                for k, t in enumerate(trees):
+                    if t._gsc(t):
+                        continue
+                    before = {d.id for _, d in t.active_non_leaves}
+                    n_rounds = len(seeds_log[k])
+                    t.run_step()
+                    if k == 1:
+                        bad = [d.id for _, d in t.all_demes if getattr(d, "_hibernating", False)]
+                        if bad and not found:
+                            found.append(f"tree B was built with options {['hibernation=False', 'no hibernation key', 'an empty options dict'][how_b]} while another tree of the process has hibernation on: its demes {bad} hibernate at metaepoch {t.metaepoch_count}")
+                    elif len(seeds_log[0]) > n_rounds:
+                        took = seeds_log[0][-1]
+                        for _, d in t.active_non_leaves:
+                            if d.id in before and d.is_active:
+                                want = d.id not in took
+                                if bool(d._hibernating) != want and not found:
+                                    found.append(f"tree A (hibernation on) metaepoch {t.metaepoch_count}: deme {d.id} took part in the round, the round {'took no seed' if want else 'took a seed'} from it, but its hibernation flag is {bool(d._hibernating)} (another tree with different options lives in the same process)")
+    except RunTimeout as e:
+        return {"status": "crash", "detail": f"run did not terminate: {e}"}
+    except Exception as e:  # noqa: BLE001
+        return {"status": "env" if is_env_crash(e) else "crash", "detail": f"{type(e).__name__}: {e}"}
+    return {"status": "ok", "found": found, "rounds": len(seeds_log[0])}
+
+
+def interleaved_options(ctx, n, salt):
+    from ..common import Slice, pmap
+
+    sl = Slice("two trees with different hibernation options stepped side by side in one process")
+    n = ctx.boost(n) if hasattr(ctx, "boost") else n
+    base = int(ctx.rng(salt).integers(1 << 30))
+    seeds = [base + i for i in range(n)]
+    for sd, r in zip(seeds, pmap(_interleaved_worker, seeds, chunksize=2)):
+        if r["status"] == "env":
+            sl.skipped += 1
+            continue
+        if r["status"] == "crash":
+            sl.violations.append({"signature": "C18/run-crashed", "detail": r["detail"], "replay": {"seed": sd}})
+            continue
+        sl.cases += 1
+        if r["rounds"] >= 2:
+            sl.nontrivial.add(sd)
+        for m in r["found"]:
+            sl.violations.append({"signature": "C18/flags-depend-on-another-tree", "detail": m, "replay": {"seed": sd}})
+    if seeds:
+        sl.sample({"seed": seeds[0]})
+    return sl
 
 
 def _nan_hib(rng):
